@@ -220,7 +220,7 @@ def explore(prop, tier, seed, have_driver, extra_lines=None, scale=1):
     cases = uniq
     # the model's answers
     if have_driver and cases:
-        model = run_driver([c['line'] for c in cases], 'Driver')
+        model = run_driver([c.get('model_line') or c['line'] for c in cases], 'Driver')
         if model is None:
             errors.append('the model driver failed to run')
             model = [None] * len(cases)
@@ -236,7 +236,16 @@ def explore(prop, tier, seed, have_driver, extra_lines=None, scale=1):
             print('infrastructure: the specification driver failed to run', file=sys.stderr)
             sys.exit(2)
         for (c, s), o in zip(spec_lines, outs):
-            if o != s['expect']:
+            if s.get('prop'):
+                # the real code's observable against the Lean specification: a property oracle
+                if s.get('mode') == 'subset':
+                    got = set(s['expect'].split(','))
+                    ok = all(item in got for item in o.split(','))
+                else:
+                    ok = o == s['expect']
+                c['recs'].append({'prop': s['prop'], 'ok': ok, 'expected': o[:600], 'observed': s['expect'][:600],
+                                  'what': s['what'], 'spec_line': s['line'][:300]})
+            elif o != s['expect']:
                 print(f'infrastructure: the harness reference disagrees with the Lean specification on {s["line"][:200]}: '
                       f'{s["expect"][:200]} vs {o[:200]}', file=sys.stderr)
                 sys.exit(2)
@@ -426,7 +435,7 @@ def replay(prop, path):
         print('replay could not run: ' + str(r['error']), file=sys.stderr)
         return 2
     c = r['cases'][0]
-    model = run_driver([c['line']], 'Driver')
+    model = run_driver([c.get('model_line') or c['line']], 'Driver')
     print('input    ' + c['line'][:2000])
     print('code     ' + str(c['real'])[:2000])
     print('model    ' + (model[0][:2000] if model else '(model driver unavailable)'))
